@@ -6,7 +6,7 @@ import re
 from ..program import AnalysisError, walk_local, dotted
 from ..analysis import Spec, src, class_const, const_value
 from ..regexlang import Lang
-from ..rules import (GWF, EXC, need_func, stores_to, is_const)
+from ..rules import (template_sites, GWF, EXC, need_func, stores_to, is_const)
 from . import common
 
 BR = GWF + '.branches'
@@ -218,17 +218,14 @@ def destinations(prog, an, rep):
 
 
 def _format_sites(prog, an):
-    """All '<prefix>/{}...'.format(...) name constructions for w/ q/ q/w/."""
+    """All robot branch name constructions for w/ q/ q/w/, whatever the
+    spelling (.format, f-string, %, +): [(func, node, pattern, holes)]."""
     out = []
     for f in prog.all_funcs():
         if f.module.name == 'bert_e.git_host.mock':
             continue
-        for x in prog.calls_in(f):
-            if isinstance(x.func, ast.Attribute) and x.func.attr == 'format' \
-                    and isinstance(x.func.value, ast.Constant) and \
-                    isinstance(x.func.value.value, str) and \
-                    re.match(r'^(w|q|q/w)/\{', x.func.value.value):
-                out.append((f, x, x.func.value.value))
+        for x, fmt, holes in template_sites(f, r'^(w|q|q/w)/\{'):
+            out.append((f, x, fmt, holes))
     return out
 
 
@@ -236,9 +233,9 @@ def construction_sites(prog, an, rep):
     R = 'C18.SIB.construction'
     sites = _format_sites(prog, an)
     n = {'w/{}/{}': 0, 'q/{}': 0, 'q/w/{}/{}/{}': 0}
-    for f, call, fmt in sites:
+    for f, call, fmt, holes in sites:
         rep.evaluated()
-        args = [src(a) for a in call.args]
+        args = [src(a) for a in holes]
         if f.qname.endswith('check_conflict'):
             # temporary 'w/<branch>' probe branch, never parsed back
             continue
@@ -250,12 +247,12 @@ def construction_sites(prog, an, rep):
         n[fmt] += 1
         if fmt == 'w/{}/{}':
             ok = len(args) == 2 and args[0].endswith('.version') and \
-                _is_source(f, call.args[1])
+                _is_source(f, holes[1])
         elif fmt == 'q/{}':
             ok = len(args) == 1 and args[0].endswith('.version')
         else:
-            ok = len(args) == 3 and _is_pr_id(f, call.args[0]) and \
-                _is_version(f, call.args[1]) and _is_source(f, call.args[2])
+            ok = len(args) == 3 and _is_pr_id(f, holes[0]) and \
+                _is_version(f, holes[1]) and _is_source(f, holes[2])
         rep.check(ok, R, '%s: %s.format(%s)' % (f.qname, fmt,
                                                 ', '.join(args)),
                   f.where(call), 'fields of %r are filled with %s (expected '
@@ -367,12 +364,9 @@ def round_trip(prog, an, rep):
                   'yields other fields' % (w, k.name))
     # queue branch -> destination name mapping
     init = qb.methods.get('__init__')
-    fmts = [const_value(x.left) for x in walk_local(init.node,
-                                                    include_root=False)
-            if isinstance(x, ast.BinOp) and isinstance(x.op, ast.Mod) and
-            isinstance(x.left, ast.Constant)] if init else []
-    rep.check(sorted(fmts) == ['development/%s', 'hotfix/%d.%d.%d',
-                               'stabilization/%s'], R,
+    fmts = [t for _, t, _ in template_sites(init)] if init else []
+    rep.check(sorted(fmts) == ['development/{}', 'hotfix/{}.{}.{}',
+                               'stabilization/{}'], R,
               'QueueBranch maps its version to the destination name',
               qb.where(), 'QueueBranch builds destinations from %s' % fmts)
 
